@@ -67,6 +67,9 @@ func AuthUser(th *Thread, s, nonce string) bool {
 	}
 	user := str.BeforeFirst(s, "\x00")
 	passhash := getPassHash(th, user)
+	if passhash == "" {
+		return false // unknown user (or the lookup failed)
+	}
 	hash := sha1.Sum([]byte(nonce + passhash)) //TODO upgrade sha1
 	t := user + "\x00" + string(hash[:])
 	return s == t
